@@ -94,10 +94,18 @@ def run_jobs(jobs, njobs, progress=None, wall=None, stop_on_prop=None):
     groups = collections.OrderedDict()
     for idx, j in enumerate(jobs):
         groups.setdefault((j['hclass'], j['prop'], j['batch']), []).append(idx)
+    # chunks of the different batches are interleaved, so that a wall-clock cut-off samples every batch
+    # in proportion instead of dropping the later ones
+    lists = collections.defaultdict(list)
     for (hc, prop, batch), idxs in groups.items():
         size = jobs[idxs[0]].get('chunk') or CHUNK  # a batch of very cheap runs may ask for larger chunks (batch key 'chunk')
-        for k in range(0, len(idxs), size):
-            queues[hc].put((idxs[k:k + size], prop, batch))
+        lists[hc].append([(idxs[k:k + size], prop, batch) for k in range(0, len(idxs), size)])
+    for hc, ls in lists.items():
+        pos = [0] * len(ls)
+        for _ in range(sum(len(l) for l in ls)):
+            i = min((i for i in range(len(ls)) if pos[i] < len(ls[i])), key=lambda i: (pos[i] / len(ls[i]), i))
+            queues[hc].put(ls[i][pos[i]])
+            pos[i] += 1
     results = [None] * len(jobs)
     t0 = time.monotonic()
     stop = threading.Event()
@@ -152,7 +160,7 @@ def check(prop, tier, seed, njobs):
         for i in range(n):
             jobs.append(dict(id=len(jobs), prop=prop, batch=b, seed=derive_seed(seed, prop, b, i), hclass=i % HCLASSES,
                              chunk=batch.get('chunk')))
-    wall = P.get('wall', {}).get(tier, 120 if tier == 'quick' else 1500)
+    wall = P.get('wall', {}).get(tier, 120 if tier == 'quick' else 1500) * float(os.environ.get('VERIF_WALL_SCALE', '1'))
     results, servers = run_jobs(jobs, njobs, wall=wall, stop_on_prop=prop if os.environ.get('VERIF_STOP_FIRST') else None)
     try:
         return finish(prop, tier, seed, P, jobs, results, servers, t0)
@@ -211,8 +219,8 @@ def finish(prop, tier, seed, P, jobs, results, servers, t0):
 
     def do_shrink(key, serv):
         j, r, v = groups[key]['first']
-        if os.environ.get('VERIF_NO_SHRINK'):
-            shr[key] = {}
+        if os.environ.get('VERIF_NO_SHRINK') or (match_known(known, dict(property=prop, rule=key[0], signature=key[1])) and not os.environ.get('VERIF_SHRINK_KNOWN')):
+            shr[key] = {}  # a known finding is re-confirmed, not re-minimised, on every run (VERIF_SHRINK_KNOWN=1 to minimise)
             return
         shr[key] = serv.call(dict(id='shrink', shrink=dict(prop=prop, batch=j['batch'], choices=r['choices'],
                                                            property=prop, rule=key[0], signature=key[1])))
